@@ -1291,8 +1291,24 @@ void tickit_window_take_focus(TickitWindow *win)
 
 static void _focus_gained(TickitWindow *win, TickitWindow *child)
 {
-  if(win->focused_child && child && win->focused_child != child)
-    _focus_lost(win->focused_child);
+  if(win->focused_child && win->focused_child != child) {
+    /* Focus leaves the branch that held it, also when win itself takes it */
+    TickitWindow *old = win->focused_child;
+    _focus_lost(old);
+
+    if(win->focus_child_notify) {
+      TickitFocusEventInfo info = { .type = TICKIT_FOCUSEV_OUT, .win = old };
+      run_events(win, TICKIT_WINDOW_ON_FOCUS, &info);
+    }
+  }
+
+  if(child && win->is_focused) {
+    /* A descendant takes the focus away from win itself */
+    win->is_focused = false;
+
+    TickitFocusEventInfo info = { .type = TICKIT_FOCUSEV_OUT, .win = win };
+    run_events(win, TICKIT_WINDOW_ON_FOCUS, &info);
+  }
 
   if(win->parent) {
     if(win->is_visible)
